@@ -110,11 +110,19 @@ def cells():
 
 
 def enumerate_cases(tier):
+    seen = set()
     for c in cells():
         vals = {p: 'v_' + p for p in c['given'] if p != 'namespace'}
         if 'namespace' in c['given']:
             vals['namespace'] = '/other'
         yield dict(c, reg='/reg', vals=vals)
+        if (c['nscls'], c['helper']) not in seen and not c['given'] and \
+                c['style'] == 'kw':
+            # every helper once with an underlying method that fails, and
+            # (coroutines) one that is cancelled
+            seen.add((c['nscls'], c['helper']))
+            for tr in ('RuntimeError', 'TypeError', 'Cancelled'):
+                yield dict(c, reg='/reg', vals={}, target_raises=tr)
 
 
 def strategy(tier):
@@ -141,7 +149,7 @@ def strategy(tier):
         # the underlying method fails: the helper passes the exception on
         # and does not try anything else
         'target_raises': st.sampled_from([None, None, None, 'TypeError',
-                                          'RuntimeError']),
+                                          'RuntimeError', 'Cancelled']),
         'ns_override': st.sampled_from(['/other', '/', '/reg', '/x y']),
         'values': st.lists(val, min_size=8, max_size=8)}).map(
         lambda d: _norm(d, cl))
@@ -181,6 +189,11 @@ def check_case(case):
         def rec(self, *a, **k):
             b = sig.bind(self, *a, **k)
             calls.append((name, dict(b.arguments)))
+            if armed[0] == 'Cancelled':
+                # (the task that waits in the underlying coroutine is
+                # cancelled)
+                import asyncio
+                raise asyncio.CancelledError(TFAULT)
             if armed[0]:
                 raise {'TypeError': TypeError,
                        'RuntimeError': RuntimeError}[armed[0]](TFAULT)
@@ -290,6 +303,9 @@ def check_case(case):
     armed[0] = case.get('target_raises')
     if helper == 'session':
         armed[0] = None     # returns a context manager, calls nothing yet
+    if armed[0] == 'Cancelled' and not inspect.iscoroutinefunction(
+            getattr(target, helper)):
+        armed[0] = 'RuntimeError'
     try:
         r = getattr(ns, helper)(*pos, **kw)
         if inspect.isawaitable(r):
@@ -298,7 +314,10 @@ def check_case(case):
                 r = loop.run(r)
             finally:
                 loop.shutdown()
-    except (TypeError, RuntimeError) as e:
+    except (TypeError, RuntimeError, BaseException) as e:
+        if not isinstance(e, (TypeError, RuntimeError)) and \
+                type(e).__name__ != 'CancelledError':
+            raise
         if armed[0] and str(e) == TFAULT:
             if len(calls) != 1 or calls[0][0] != helper:
                 raise Violation('retried-after-target-failure',
